@@ -229,6 +229,8 @@ func (s *Solver) expr(x *Term) string {
 	return sb.String()
 }
 
+var noWideMode = os.Getenv("GOSYM_WIDE") == ""
+
 var slowLog = os.Getenv("GOSYM_SLOW") != ""
 
 const (
@@ -343,7 +345,7 @@ func (s *Solver) CheckInc(pc []*Term, extra []*Term, evalTerms []*Term) (string,
 			}
 		}
 	}
-	if isWide {
+	if isWide && !noWideMode {
 		ex = append(append([]*Term{}, live...), ex...)
 		live = nil
 	}
